@@ -534,6 +534,54 @@ func appendSitesOf(v ssa.Value) []ssa.Instruction {
 	return out
 }
 
+// derivedAppendSites: the append calls that add v, or a value computed from v inside the same function (a field
+// of it, a copy through a local, the result of a function it is handed to), to a slice.  It is what "the result
+// is adopted" means when the populate step is done in place: ReadSfm's result -> its SegMeta ->
+// ProcessSegmetaInfo -> the appended micro index.
+func derivedAppendSites(v ssa.Value) []ssa.Instruction {
+	var out []ssa.Instruction
+	seen := map[ssa.Value]bool{}
+	var rec func(x ssa.Value)
+	rec = func(x ssa.Value) {
+		if x == nil || seen[x] {
+			return
+		}
+		seen[x] = true
+		refs := x.Referrers()
+		if refs == nil {
+			return
+		}
+		for _, in := range *refs {
+			switch y := in.(type) {
+			case *ssa.Store:
+				if y.Val != x {
+					continue
+				}
+				switch a := y.Addr.(type) {
+				case *ssa.IndexAddr:
+					rec(a.X)
+				case *ssa.Alloc:
+					rec(a)
+				case *ssa.FieldAddr:
+					rec(a.X)
+				}
+			case *ssa.Call:
+				if bi, ok := y.Call.Value.(*ssa.Builtin); ok {
+					if bi.Name() == "append" {
+						out = append(out, y)
+					}
+					continue
+				}
+				rec(y)
+			case *ssa.Slice, *ssa.FieldAddr, *ssa.UnOp, *ssa.Extract, *ssa.MakeInterface, *ssa.ChangeType, *ssa.Convert, *ssa.Phi, *ssa.IndexAddr:
+				rec(y.(ssa.Value))
+			}
+		}
+	}
+	rec(v)
+	return out
+}
+
 // checkAdoptedOnSuccess: once call succeeded (err == nil edge), every path
 // reaches an append of its result before the next iteration / a return: no
 // condition on the data may skip the adoption.
@@ -547,8 +595,10 @@ func checkAdoptedOnSuccess(c *core.Ctx, r *core.Report, rule string, call *ssa.C
 	}
 	adopt := map[ssa.Instruction]bool{}
 	for _, o := range others {
-		for _, a := range appendSitesOf(o) {
-			adopt[a] = true
+		for _, a := range derivedAppendSites(o) {
+			if a.Parent() == fn {
+				adopt[a] = true
+			}
 		}
 	}
 	if len(adopt) == 0 {
